@@ -285,10 +285,10 @@ def rule_network_transitions(ck, rid="C01.R9"):
     ck.count("decision-table rows (network plugin/unplug)", len(rows))
 
     def is_match(k, a):
-        c = cmp_norm(a, True)
+        c = pathtab.split_key(k)
         if not c or c[1] != "==":
             return False
-        sides = [canon(c[0]), canon(c[2])]
+        sides = [c[0], c[2]]
         if se not in sides:
             return False
         o = sides[1] if sides[0] == se else sides[0]
@@ -299,9 +299,8 @@ def rule_network_transitions(ck, rid="C01.R9"):
         return kind == "call" and k.endswith(".unplug()") and _evse_at(k[:-len(".unplug()")], st)
 
     def ev_none(k, a):
-        c = cmp_norm(a, True)
-        return bool(c) and c[1] == "is" and isinstance(c[2], ast.Constant) and c[2].value is None and \
-            canon(c[0]).rsplit(".", 1)[-1] in ("ev", "_ev") and _evse_at(canon(c[0]).rsplit(".", 1)[0], st)
+        c = pathtab.split_key(k)
+        return bool(c) and c[1] == "is" and c[2] == "None" and c[0].rsplit(".", 1)[-1] in ("ev", "_ev") and _evse_at(c[0].rsplit(".", 1)[0], st)
 
     matched = [r for r in rows if r.fact(is_match) is True]
     pathtab.must_on(ck, rid, un, matched, is_unplug, 1, "EVSE.unplug() of the station whose occupant has the given session id", "unplug:due",
